@@ -2,6 +2,8 @@ package zzverif
 
 import (
 	"encoding/json"
+	"fmt"
+	"os"
 	"sort"
 
 	"verif.local/simrt"
@@ -121,6 +123,13 @@ func (c *Ctx) Account(ex *Exec) {
 	if r.FS != nil {
 		for _, f := range r.FS.Fired {
 			_ = f
+		}
+	}
+	if c.OptBool("verbose") {
+		if ex.Panic != nil {
+			fmt.Fprintf(os.Stderr, "PANIC %s: %s\n", ex.Panic.Key(), truncate(ex.Panic.Value, 200))
+		} else if ex.Err != nil {
+			fmt.Fprintf(os.Stderr, "ERR %s\n", truncate(ex.Err.Error(), 300))
 		}
 	}
 	switch {
